@@ -193,6 +193,36 @@ std::string opRouteNf(const std::vector<std::string>& w)
     return statusAndBody(r) + " tables=" + std::to_string(srv.tables());
 }
 
+// routep <hexpath>: GET against a router whose handlers report what the Rest::Request accessors give them: param() of two parameters
+// whose names share a prefix, hasParam() of a present name, of an absent one and of a proper prefix of a present one, splat() / splatAt()
+std::string opRouteP(const std::vector<std::string>& w)
+{
+    if (w.size() != 2) return "bad-op";
+    std::string path; if (!fromHex(w[1], path)) return "bad-op";
+    static std::unique_ptr<Http::Endpoint> ep; static uint16_t port = 0;
+    if (!ep) {
+        ep.reset(new Http::Endpoint(Address("127.0.0.1", Port(0))));
+        ep->init(Http::Endpoint::options().threads(1).flags(Tcp::Options::ReuseAddr));
+        Rest::Router router;
+        Rest::Routes::Get(router, "/u/:idx/:id/*/*", [](const Rest::Request& req, Http::ResponseWriter wr) {
+            std::string b = "idx=" + req.param(":idx").as<std::string>() + " id=" + req.param(":id").as<std::string>()
+                + " hid=" + (req.hasParam(":id") ? "1" : "0") + " hi=" + (req.hasParam(":i") ? "1" : "0") + " hidx=" + (req.hasParam(":idx") ? "1" : "0")
+                + " n=" + std::to_string(req.splat().size()) + " s0=" + req.splatAt(0).as<std::string>() + " s1=" + req.splatAt(1).as<std::string>();
+            wr.send(Http::Code::Ok, b); return Rest::Route::Result::Ok; });
+        Rest::Routes::Get(router, "/w/:name", [](const Rest::Request& req, Http::ResponseWriter wr) {
+            std::string b = "name=" + req.param(":name").as<std::string>() + " hn=" + (req.hasParam(":n") ? "1" : "0") + " hname=" + (req.hasParam(":name") ? "1" : "0");
+            wr.send(Http::Code::Ok, b); return Rest::Route::Result::Ok; });
+        ep->setHandler(router.handler());
+        ep->serveThreaded();
+        port = static_cast<uint16_t>(ep->getPort());
+    }
+    int fd = connectTo(port); if (fd < 0) return "connect-failed";
+    sendAll(fd, "GET " + path + " HTTP/1.1\r\nHost: h\r\n\r\n");
+    std::string buf; std::string r = readOne(fd, buf, 500);
+    ::close(fd);
+    return statusAndBody(r);
+}
+
 // what the server must answer to (method, path) — used only to check answers inside the concurrent scenario
 std::string expectedFor(const std::string& m, const std::string& kind, const std::string& tag)
 {
@@ -295,6 +325,7 @@ int main()
     std::map<std::string, Op> ops;
     ops["route"] = opRoute;
     ops["routenf"] = opRouteNf;
+    ops["routep"] = opRouteP;
     ops["mt"] = opMt;
     return runLoop(ops, 60);
 }
